@@ -780,7 +780,7 @@ structure Inv (s : State) : Prop where
   str : Str s.groups
   idsNodup : s.ids.Nodup
   parents : ∀ seg ∈ s.segs, ∀ p, seg.parent = some p → p ∈ s.ids
-  ugrp : ∀ seg ∈ s.segs, ∀ u, seg.ugroup = some u → isDefaultName u = false
+  ugrp : ∀ seg ∈ s.segs, ∀ u, seg.ugroup = some u → isDefaultName u = false ∨ ∃ t, seg.stype = some t ∧ u = t.group
   user : ∀ u, isDefaultName u = false → ∀ i, i ∈ mems s.groups u ↔ ∃ seg ∈ s.segs, seg.id = i ∧ seg.ugroup = some u
   typed : ∀ t i, FlatMem s.groups (SegType.group t) i ↔ ∃ seg ∈ s.segs, seg.id = i ∧ seg.stype = some t
   all : ∀ i, FlatMem s.groups "all" i ↔ i ∈ s.ids
@@ -1164,6 +1164,100 @@ theorem convStep_none {s : State} (h : Str s.groups) (id : Int) (t : SegType) (r
     · intro k; rw [mems_reorder h3.once]; exact hm3 k
     · intro k; rw [incs_reorder h3.once]; exact hi3 k
 
+/-- the state after the group handling of `add_segment(…, group_id=<the default group of the segment's own type>)`: the
+    id is appended to that group by the `if group_id:` block and again, with 'all', by the convention block -/
+theorem convStep_own {s : State} (h : Str s.groups) (id : Int) (t : SegType) (ro : Bool) :
+    let s4 := convStep (userStep s t.group id) t.group id t ro
+    s4.segs = s.segs ∧ s4.memb = s.memb ∧ s4.intra = s.intra ∧ Str s4.groups ∧
+    (∀ k i, i ∈ mems s4.groups k ↔ i ∈ (if k = "all" ∨ k = t.group then mems s.groups k ++ [id] else mems s.groups k)) ∧
+    (∀ k, incs s4.groups k = incs s.groups k) := by
+  intro s4
+  have htne : t.group ≠ "" := by cases t <;> decide
+  let s0 := ensureGroup s t.group none
+  let s1 := addMember s0 t.group id
+  let sc := ensureGroup s1 "all" (defaultNlx "all")
+  let sd := ensureGroup sc t.group (defaultNlx t.group)
+  let s2 := reorder sd
+  let se := addMember s2 t.group id
+  let s3 := addMember se "all" id
+  have e1 : userStep s t.group id = s1 := by unfold userStep; simp only [ne_eq, htne, not_false_eq_true, ↓reduceIte]; rfl
+  have e4 : s4 = if ro then reorder s3 else s3 := by
+    show convStep (userStep s t.group id) t.group id t ro = _
+    rw [e1]
+    unfold convStep
+    simp only [setupDefault_two, ne_eq, not_true_eq_false, and_false, ↓reduceIte]
+    rfl
+  have h0 : Str s0.groups := str_ensureGroup h _ _
+  have h1 : Str s1.groups := str_addMember h0 _ _
+  have hc : Str sc.groups := str_ensureGroup h1 _ _
+  have hd : Str sd.groups := str_ensureGroup hc _ _
+  have h2 : Str s2.groups := str_reorder hd
+  have he : Str se.groups := str_addMember h2 _ _
+  have h3 : Str s3.groups := str_addMember he _ _
+  have st_0 : (look s0.groups t.group).isSome := isSome_ensureGroup_self s t.group _ htne
+  have sall_c : (look sc.groups "all").isSome := isSome_ensureGroup_self s1 "all" _ (by decide)
+  have sall_d : (look sd.groups "all").isSome := isSome_ensureGroup_mono _ _ _ _ sall_c
+  have sall_2 : (look s2.groups "all").isSome := by rw [isSome_reorder]; exact sall_d
+  have sall_e : (look se.groups "all").isSome := by rw [isSome_addMember]; exact sall_2
+  have st_d : (look sd.groups t.group).isSome := isSome_ensureGroup_self sc t.group _ htne
+  have st_2 : (look s2.groups t.group).isSome := by rw [isSome_reorder]; exact st_d
+  have e0 : ∀ (x : State) g n, (ensureGroup x g n).memb = x.memb ∧ (ensureGroup x g n).intra = x.intra := by
+    intro x g n; rcases ensureGroup_cases x g n with e | ⟨_, e⟩ <;> rw [e] <;> exact ⟨rfl, rfl⟩
+  have hsegs3 : s3.segs = s.segs := by
+    show sd.segs = s.segs
+    rw [segs_ensureGroup, segs_ensureGroup]
+    show s0.segs = s.segs
+    exact segs_ensureGroup _ _ _
+  have hmemb3 : s3.memb = s.memb ∧ s3.intra = s.intra := by
+    have a1 := e0 s t.group none
+    have a2 := e0 s1 "all" (defaultNlx "all")
+    have a3 := e0 sc t.group (defaultNlx t.group)
+    constructor
+    · show sd.memb = s.memb
+      rw [a3.1, a2.1]; exact a1.1
+    · show sd.intra = s.intra
+      rw [a3.2, a2.2]; exact a1.2
+  have m1 : ∀ k, mems s1.groups k = if k = t.group then mems s.groups k ++ [id] else mems s.groups k := by
+    intro k
+    rw [mems_addMember]
+    have e00 : ∀ k', mems s0.groups k' = mems s.groups k' := fun k' => mems_ensureGroup s t.group none k'
+    simp only [st_0, and_true, e00]
+    by_cases ek : k = t.group
+    · subst ek; simp
+    · simp [ek]
+  have base : ∀ k, mems s2.groups k = mems s1.groups k := by
+    intro k; rw [mems_reorder hd.once, mems_ensureGroup, mems_ensureGroup]
+  have hm3 : ∀ k i, i ∈ mems s3.groups k ↔ i ∈ (if k = "all" ∨ k = t.group then mems s.groups k ++ [id] else mems s.groups k) := by
+    intro k i
+    rw [mems_addMember]
+    simp only [sall_e, and_true]
+    by_cases ek : k = "all"
+    · subst ek
+      simp only [true_or, ↓reduceIte]
+      rw [mems_addMember]
+      have hne : ¬ ("all" = t.group) := fun x => group_ne_all t x.symm
+      simp only [hne, false_and, ↓reduceIte, base, m1]
+    · simp only [ek, false_or, ↓reduceIte]
+      rw [mems_addMember]
+      simp only [st_2, and_true, base, m1]
+      by_cases ek2 : k = t.group
+      · subst ek2; simp
+      · simp [ek2]
+  have hi3 : ∀ k, incs s3.groups k = incs s.groups k := by
+    intro k
+    rw [incs_addMember, incs_addMember, incs_reorder hd.once, incs_ensureGroup, incs_ensureGroup]
+    show incs (addMember s0 t.group id).groups k = _
+    rw [incs_addMember]
+    exact incs_ensureGroup _ _ _ _
+  rw [e4]
+  cases ro with
+  | false => exact ⟨hsegs3, hmemb3.1, hmemb3.2, h3, hm3, hi3⟩
+  | true =>
+    simp only [↓reduceIte]
+    refine ⟨hsegs3, hmemb3.1, hmemb3.2, str_reorder h3, ?_, ?_⟩
+    · intro k i; rw [mems_reorder h3.once]; exact hm3 k i
+    · intro k; rw [incs_reorder h3.once]; exact hi3 k
+
 theorem ids_snoc {s s5 : State} {seg : Seg} (hsegs : s5.segs = s.segs ++ [seg]) : s5.ids = s.ids ++ [seg.id] := by
   unfold State.ids; rw [hsegs]; simp
 
@@ -1215,7 +1309,7 @@ theorem inv_caseA {s s5 : State} (h : Inv s) (seg : Seg) (gid : String) (t : Seg
     rcases List.mem_append.mp hx with hx | hx
     · exact h.ugrp x hx u hu
     · simp only [List.mem_singleton] at hx; subst hx
-      rw [hug] at hu; cases hu; exact hgid
+      rw [hug] at hu; cases hu; exact Or.inl hgid
   · -- user
     intro u hu i
     rw [hm, hsegs, exists_mem_snoc]
@@ -1335,16 +1429,18 @@ theorem inv_caseA {s s5 : State} (h : Inv s) (seg : Seg) (gid : String) (t : Seg
     · simp only [et, ↓reduceIte] at hu
       exact Or.inl (h.incT t' u hu)
 
-/-- new segment added without a user group: it goes into the default group of its type and into 'all' -/
+/-- new segment added without a user group — or with the default group of its OWN type as `group_id` (then the id
+    is appended twice to that group: membership is what counts): it goes into the default group of its type and
+    into 'all' -/
 theorem inv_caseB {s s5 : State} (h : Inv s) (seg : Seg) (t : SegType)
     (hsegs : s5.segs = s.segs ++ [seg]) (hstr : Str s5.groups)
-    (hm : ∀ k, mems s5.groups k = if k = "all" ∨ k = t.group then mems s.groups k ++ [seg.id] else mems s.groups k)
+    (hm : ∀ k i, i ∈ mems s5.groups k ↔ i ∈ (if k = "all" ∨ k = t.group then mems s.groups k ++ [seg.id] else mems s.groups k))
     (hi : ∀ k, incs s5.groups k = incs s.groups k)
     (hid : seg.id ∉ s.ids) (hpar : ∀ p, seg.parent = some p → p ∈ s.ids)
-    (hug : seg.ugroup = none) (hst : seg.stype = some t) : Inv s5 := by
+    (hug : seg.ugroup = none ∨ seg.ugroup = some t.group) (hst : seg.stype = some t) : Inv s5 := by
   have hids := ids_snoc hsegs
-  have hnd : ∀ u, isDefaultName u = false → mems s5.groups u = mems s.groups u := by
-    intro u hu
+  have hnd : ∀ u, isDefaultName u = false → ∀ i, i ∈ mems s5.groups u ↔ i ∈ mems s.groups u := by
+    intro u hu i
     rw [hm]
     have h1 : u ≠ "all" := (ne_of_default isDefaultName_all hu).symm
     have h2 : u ≠ t.group := (ne_of_default (isDefaultName_group t) hu).symm
@@ -1367,69 +1463,73 @@ theorem inv_caseB {s s5 : State} (h : Inv s) (seg : Seg) (t : SegType)
     rcases List.mem_append.mp hx with hx | hx
     · exact h.ugrp x hx u hu
     · simp only [List.mem_singleton] at hx; subst hx
-      rw [hug] at hu; cases hu
+      rcases hug with hug | hug
+      · rw [hug] at hu; cases hu
+      · rw [hug] at hu; cases hu; exact Or.inr ⟨t, hst, rfl⟩
   · intro u hu i
-    rw [hnd u hu, hsegs, exists_mem_snoc, h.user u hu i]
+    rw [hnd u hu i, hsegs, exists_mem_snoc, h.user u hu i]
     constructor
     · intro h1; exact Or.inl h1
     · rintro (h1 | ⟨_, h2⟩)
       · exact h1
-      · rw [hug] at h2; cases h2
+      · rcases hug with hug | hug
+        · rw [hug] at h2; cases h2
+        · rw [hug] at h2; cases h2; rw [isDefaultName_group] at hu; cases hu
   · intro t' i
     rw [hsegs, exists_mem_snoc]
     unfold FlatMem
     rw [hi]
-    have hsame : ∀ u ∈ incs s.groups t'.group, mems s5.groups u = mems s.groups u :=
+    have hsame : ∀ u ∈ incs s.groups t'.group, ∀ i, i ∈ mems s5.groups u ↔ i ∈ mems s.groups u :=
       fun u hu => hnd u (hincnd _ u hu)
     by_cases et : t' = t
     · subst et
-      have hmt : mems s5.groups t'.group = mems s.groups t'.group ++ [seg.id] := by rw [hm]; simp
-      rw [hmt]
+      have hmt : ∀ i, i ∈ mems s5.groups t'.group ↔ i ∈ mems s.groups t'.group ++ [seg.id] := by intro i; rw [hm]; simp
+      rw [hmt i]
       constructor
       · rintro (h1 | ⟨u, hu, h1⟩)
         · rcases List.mem_append.mp h1 with h1 | h1
           · exact Or.inl ((h.typed t' i).mp (Or.inl h1))
           · simp only [List.mem_singleton] at h1; exact Or.inr ⟨h1.symm, hst⟩
-        · rw [hsame u hu] at h1
+        · rw [hsame u hu i] at h1
           exact Or.inl ((h.typed t' i).mp (Or.inr ⟨u, hu, h1⟩))
       · rintro (h1 | ⟨h1, _⟩)
         · rcases (h.typed t' i).mpr h1 with h2 | ⟨u, hu, h2⟩
           · exact Or.inl (List.mem_append.mpr (Or.inl h2))
-          · exact Or.inr ⟨u, hu, by rw [hsame u hu]; exact h2⟩
+          · exact Or.inr ⟨u, hu, (hsame u hu i).mpr h2⟩
         · exact Or.inl (List.mem_append.mpr (Or.inr (by simp [h1])))
     · have hne : t'.group ≠ t.group := fun e => et (group_inj e)
-      have hmt : mems s5.groups t'.group = mems s.groups t'.group := by
-        rw [hm]; simp only [group_ne_all t', hne, or_self, ↓reduceIte]
-      rw [hmt]
+      have hmt : ∀ i, i ∈ mems s5.groups t'.group ↔ i ∈ mems s.groups t'.group := by
+        intro i; rw [hm]; simp only [group_ne_all t', hne, or_self, ↓reduceIte]
+      rw [hmt i]
       constructor
       · rintro (h1 | ⟨u, hu, h1⟩)
         · exact Or.inl ((h.typed t' i).mp (Or.inl h1))
-        · rw [hsame u hu] at h1
+        · rw [hsame u hu i] at h1
           exact Or.inl ((h.typed t' i).mp (Or.inr ⟨u, hu, h1⟩))
       · rintro (h1 | ⟨_, h1⟩)
         · rcases (h.typed t' i).mpr h1 with h2 | ⟨u, hu, h2⟩
           · exact Or.inl h2
-          · exact Or.inr ⟨u, hu, by rw [hsame u hu]; exact h2⟩
+          · exact Or.inr ⟨u, hu, (hsame u hu i).mpr h2⟩
         · rw [hst] at h1; cases h1; exact absurd rfl et
   · intro i
     rw [hids, List.mem_append, List.mem_singleton]
     unfold FlatMem
     rw [hi]
-    have hsame : ∀ u ∈ incs s.groups "all", mems s5.groups u = mems s.groups u :=
+    have hsame : ∀ u ∈ incs s.groups "all", ∀ i, i ∈ mems s5.groups u ↔ i ∈ mems s.groups u :=
       fun u hu => hnd u (hincnd _ u hu)
-    have hma : mems s5.groups "all" = mems s.groups "all" ++ [seg.id] := by rw [hm]; simp
-    rw [hma]
+    have hma : ∀ i, i ∈ mems s5.groups "all" ↔ i ∈ mems s.groups "all" ++ [seg.id] := by intro i; rw [hm]; simp
+    rw [hma i]
     constructor
     · rintro (h1 | ⟨u, hu, h1⟩)
       · rcases List.mem_append.mp h1 with h1 | h1
         · exact Or.inl ((h.all i).mp (Or.inl h1))
         · simp only [List.mem_singleton] at h1; exact Or.inr h1
-      · rw [hsame u hu] at h1
+      · rw [hsame u hu i] at h1
         exact Or.inl ((h.all i).mp (Or.inr ⟨u, hu, h1⟩))
     · rintro (h1 | h1)
       · rcases (h.all i).mpr h1 with h2 | ⟨u, hu, h2⟩
         · exact Or.inl (List.mem_append.mpr (Or.inl h2))
-        · exact Or.inr ⟨u, hu, by rw [hsame u hu]; exact h2⟩
+        · exact Or.inr ⟨u, hu, (hsame u hu i).mpr h2⟩
       · exact Or.inl (List.mem_append.mpr (Or.inr (by simp [h1])))
   · intro t' u hu
     rw [hsegs, exists_mem_snoc]
@@ -1442,8 +1542,9 @@ structure SegOK (s : State) (a : AddSeg) : Prop where
   conv : a.useConv = true
   /-- the `parent` object is a segment of the cell -/
   parent : ∀ p, a.parent = some p → p ∈ s.ids
-  /-- UserGroupNamesFresh: the user group is not called like a default group -/
-  fresh : ∀ g, a.groupId = some g → isDefaultName g = false
+  /-- UserGroupNamesFresh: the user group is not called like a default group — other than the default group of the
+      segment's own type (what the repaired `add_segment` refuses is exactly `foreignDefault`) -/
+  fresh : ∀ g, a.groupId = some g → isDefaultName g = false ∨ foreignDefault a = false
   /-- OneTypePerGroup: the user group has only been used with this segment type -/
   oneType : ∀ g, a.groupId = some g → ∀ seg ∈ s.segs, seg.ugroup = some g → seg.stype = parseType a.segType
 
@@ -1491,6 +1592,11 @@ theorem appendSeg_inv {opt : State → Except Err State} (ho : OptSpec opt) {s4 
   · exact ⟨inv_opt ho h5 e, ho.segs _ _ e, by rw [ho.memb _ _ e], by rw [ho.intra _ _ e]⟩
   · cases e; exact ⟨h5, rfl, rfl, rfl⟩
 
+/-- `f"{seg_type}_group"` is the default group of the type -/
+theorem parseType_group {o : Option String} {t : SegType} (h : parseType o = some t) : o.getD "None" ++ "_group" = t.group := by
+  unfold parseType at h
+  split at h <;> cases h <;> decide
+
 theorem inv_addSegment {pick : State → AddSeg → Except Err Int} (hpk : PickSpec pick)
     {opt : State → Except Err State} (ho : OptSpec opt) {s s' : State} {a : AddSeg}
     (h : Inv s) (hok : SegOK s a) (hlex : a.lex = false) (e : addSegmentWith pick opt s a = .ok s') :
@@ -1521,8 +1627,8 @@ theorem inv_addSegment {pick : State → AddSeg → Except Err Int} (hpk : PickS
     let s4 := convStep (userStep s "" id) "" id t a.reorder
     let seg := mkSeg s4 a "" id (some t)
     have h5 : Inv { s4 with segs := s4.segs ++ [seg] } :=
-      inv_caseB h seg t (by show s4.segs ++ [seg] = s.segs ++ [seg]; rw [hsegs]) hstr hm hi hid hok.parent
-        (by show (if ("" : String) ≠ "" then some "" else none) = none; simp) rfl
+      inv_caseB h seg t (by show s4.segs ++ [seg] = s.segs ++ [seg]; rw [hsegs]) hstr (fun k i => by rw [hm k]; exact Iff.rfl) hi hid hok.parent
+        (Or.inl (by show (if ("" : String) ≠ "" then some "" else none) = none; simp)) rfl
     obtain ⟨hinv, hs', hmb, hin⟩ := appendSeg_inv ho h5 e
     refine ⟨hinv, by rw [hmb]; exact hmemb, by rw [hin]; exact hintra, seg, t, by rw [hs', hsegs], ht, rfl, ?_⟩
     intro g hgs
@@ -1533,8 +1639,32 @@ theorem inv_addSegment {pick : State → AddSeg → Except Err Int} (hpk : PickS
       cases e2 : a.groupId with
       | none => rw [e2] at hg; exact absurd rfl hg
       | some g => rfl
+    by_cases hdef : isDefaultName (a.groupId.getD "") = true
+    · -- the default group of the segment's own type as `group_id`
+      have hfd : foreignDefault a = false := by
+        rcases hok.fresh _ hgid with h1 | h1
+        · rw [h1] at hdef; cases hdef
+        · exact h1
+      have hgt : a.groupId.getD "" = t.group := by
+        unfold foreignDefault at hfd
+        rw [hgid] at hfd
+        simp only [hdef, Bool.true_and, bne_eq_false_iff_eq] at hfd
+        rw [parseType_group ht] at hfd
+        exact hfd
+      rw [hgt] at e hgid
+      obtain ⟨hsegs, hmemb, hintra, hstr, hm, hi⟩ := convStep_own h.str id t a.reorder
+      let s4 := convStep (userStep s t.group id) t.group id t a.reorder
+      let seg := mkSeg s4 a t.group id (some t)
+      have htne : t.group ≠ "" := by cases t <;> decide
+      have hug : seg.ugroup = some t.group := by show (if t.group ≠ "" then some t.group else none) = some t.group; simp [htne]
+      have h5 : Inv { s4 with segs := s4.segs ++ [seg] } :=
+        inv_caseB h seg t (by show s4.segs ++ [seg] = s.segs ++ [seg]; rw [hsegs]) hstr hm hi hid hok.parent (Or.inr hug) rfl
+      obtain ⟨hinv, hs', hmb, hin⟩ := appendSeg_inv ho h5 e
+      refine ⟨hinv, by rw [hmb]; exact hmemb, by rw [hin]; exact hintra, seg, t, by rw [hs', hsegs], ht, rfl, ?_⟩
+      intro g hgs
+      rw [hug] at hgs; cases hgs; exact hgid
     generalize a.groupId.getD "" = gid at *
-    have hfresh := hok.fresh gid hgid
+    have hfresh : isDefaultName gid = false := by cases hh : isDefaultName gid with | false => rfl | true => exact absurd hh hdef
     obtain ⟨hsegs, hmemb, hintra, hstr, hm, hi⟩ := convStep_user h.str gid id t a.reorder hfresh hg
     let s4 := convStep (userStep s gid id) gid id t a.reorder
     let seg := mkSeg s4 a gid id (some t)
@@ -1552,7 +1682,7 @@ theorem inv_addSegment {pick : State → AddSeg → Except Err Int} (hpk : PickS
 structure UnbOK (s : State) (u : AddUnb) : Prop where
   conv : u.useConv = true
   parent : ∀ p, u.parent = some p → p ∈ s.ids
-  fresh : ∀ g, u.groupId = some g → isDefaultName g = false
+  fresh : ∀ g, u.groupId = some g → isDefaultName g = false ∨ foreignDefault (unbSeg u none 4) = false
   oneType : ∀ g, u.groupId = some g → ∀ seg ∈ s.segs, seg.ugroup = some g → seg.stype = parseType u.segType
 
 theorem lastId_mem {s : State} {p : Int} (h : lastId s = some p) : p ∈ s.ids := by
@@ -1566,7 +1696,7 @@ theorem lastId_mem {s : State} {p : Int} (h : lastId s = some p) : p ∈ s.ids :
 
 theorem inv_unbRest {pick : State → AddSeg → Except Err Int} (hpk : PickSpec pick)
     {opt : State → Except Err State} (ho : OptSpec opt) (u : AddUnb) (hconv : u.useConv = true)
-    (hfresh : ∀ g, u.groupId = some g → isDefaultName g = false) :
+    (hfresh : ∀ g, u.groupId = some g → isDefaultName g = false ∨ foreignDefault (unbSeg u none 4) = false) :
     ∀ (k : Nat) (s s' : State), Inv s →
       (∀ g, u.groupId = some g → ∀ seg ∈ s.segs, seg.ugroup = some g → seg.stype = parseType u.segType) →
       unbRest (addSegmentWith pick opt) u k s = .ok s' → Inv s' := by
